@@ -77,6 +77,12 @@ public:
   size_t getSize();
 
   /** Loads a hash from a file*/
+  /* Stores the hash table in the layout Hash::save writes (one offset per
+   * table cell), whatever the in-memory representation is.
+   * @fp: output stream.
+   */
+  void save(std::ostream &fp);
+
   static HashBdh *load(std::istream &fp);
 
   virtual ~HashBdh();
